@@ -150,7 +150,7 @@ def gen_rand(ctx):
     for k in range(n):
         delay = [0, 1, 1000, 0, 1000, 1][k % 6]
         keyups = r.range(1, 4) if delay < 1000 else r.range(1, 2)
-        maxs = r.choice([0, 5, 330, 700, 1300]) if delay < 1000 else r.choice([0, 330, 700])
+        maxs = r.choice([0, 5, 330, 700, 1300, 2300]) if delay < 1000 else r.choice([0, 330, 700])
         pace = r.choice([0, 0, 100, 1000])
         out.append({"src": rand_call(r), "dst": rand_call(r, True), "delay": delay, "seed": r.below(1 << 31), "keyups": keyups,
                     "maxsamples": maxs, "pace": pace, "extra_on": int(r.chance(1, 2))})
@@ -370,11 +370,26 @@ def judge(ctx, s, plan, answers):
 
 
 # ------------------------------------------------------------------ the check
+def replay(ctx, exe):
+    """./check C14 --replay file: run exactly the recorded harness command on the real code and judge it with the oracle"""
+    import json
+    rec = json.loads(open(ctx.replay_in).read())
+    cmd = rec["replay"]["harness_command"]
+    t = cmd.split()
+    res = run_parallel(ctx, exe, [cmd], 1)[0]
+    s = {"name": "replay", "src": t[1], "dst": "" if t[2] == "-" else t[2], "res": parse_result(res), "replay": {"harness_command": cmd}}
+    n = oracle_streams(ctx, SpecEncoder(ctx), [s])
+    ctx.case(hashlib.md5(s["raw"]).hexdigest(), True)
+    ctx.sample({"replayed": cmd[:200], "result": {k: v for k, v in s["res"].items() if k != "bytes"}, "stream_frames_checked": n})
+
+
 def run(ctx):
     exe = ctx.build_cpp("c14_harness", "c14.cpp", libs=["-lcodec2"])
     model = getattr(ctx, "model", None)
     if not exe or not model:
         return
+    if ctx.replay_in:
+        return replay(ctx, exe)
     thorough = ctx.tier == "thorough"
     workers = 6 if thorough else 4
     dets = gen_det(ctx)
@@ -435,7 +450,7 @@ def run(ctx):
     # (b) the self-consistency oracle on every collected stream
     streams = []
     for d, l in zip(dets, det_res):
-        streams.append({"name": "scripted", "src": d.src, "dst": d.dst, "res": parse_result(l), "replay": {"harness_command": d.line()[:4000], "events": ",".join(d.events)[:4000]}})
+        streams.append({"name": "scripted", "src": d.src, "dst": d.dst, "res": parse_result(l), "replay": {"harness_command": d.line(), "events": ",".join(d.events)}})
     for c, l in zip(rands, rand_res):
         streams.append({"name": "racy", "src": c["src"], "dst": c["dst"], "res": parse_result(l), "replay": {"harness_command": rand_line(c), "case": c}})
     before = len(ctx.violations)
@@ -448,7 +463,7 @@ def run(ctx):
         for d, s, e in zip(dets, streams, expected):
             if s["raw"] != e:
                 ctx.violation("modulator-stream-differs-from-spec", "scripted schedule: bytes differ from the specification's stream for the audio fed",
-                              {"harness_command": d.line()[:4000], "bytes": s["raw"].hex(), "expected": e.hex()})
+                              {"harness_command": d.line(), "bytes": s["raw"].hex(), "expected": e.hex()})
                 break
     ctx.coverage["schedules"] = {"scripted": len(dets), "racy": len(rands)}
     ctx.coverage["frames_reencoded_by_spec"] = nframes
